@@ -10,7 +10,7 @@ for s in $seeds; do
   props=$s; [ -f seeded/$s/expect ] && props=$(cat seeded/$s/expect)
   out=$(tools/try_seed.sh $s $props 2>&1)
   if echo "$out" | grep -q "DOES NOT APPLY"; then r="DOES-NOT-APPLY"
-  elif echo "$out" | grep -q "^VIOLATION"; then r="CAUGHT by $(echo "$out" | grep '^VIOLATION' | sed 's/.*property=\([A-Z0-9]*\) replay=.*\/\([^/]*\)\.json.*/\1:\2/' | sort -u | head -4 | tr '\n' ' ')"
+  elif echo "$out" | grep -q "^VIOLATION"; then r="CAUGHT by $(echo "$out" | grep '^VIOLATION' | sed 's/.*property=\([A-Z0-9]*\) replay=.*\/\([^/]*\)\.json.*/\1:\2/' | sort -u | awk '{print (/missing|engine/ ? "1 " : "0 ") $0}' | sort | cut -c3- | head -4 | tr '\n' ' ')"
   else r="NOT-CAUGHT"; fi
   echo "$s [$props]: $r" | tee -a seeded/selftest_last.txt
 done
